@@ -343,3 +343,17 @@ Definition not_date_trigger (x : atime) : bool := negb (is_date (at_trigger x)).
 (* C15-F2: a floating trigger together with a snooze time (no local zone was applied) *)
 Definition floating (x : atime) : bool := match at_trigger x with Naive _ => true | _ => false end.
 Definition snooze_ok (x : atime) : bool := negb (floating x && is_some (at_snooze x)).
+
+(* [sublist a b]: a is obtained from b by deleting elements (order kept) *)
+Inductive sublist {A : Type} : list A -> list A -> Prop :=
+| sub_nil : sublist [] []
+| sub_keep : forall x a b, sublist a b -> sublist (x :: a) (x :: b)
+| sub_drop : forall x a b, sublist a b -> sublist a (x :: b).
+
+(* an acknowledgement that is absent, or present and not earlier than before *)
+Definition ack_later (a a' : option Z) : Prop :=
+  match a, a' with
+  | None, _ => True
+  | Some x, Some y => x <= y
+  | Some _, None => False
+  end.
